@@ -45,11 +45,13 @@ Good(I, I2, S, t, ds, newdirs) ==
   /\ t - SumOf(S) < MinSize                               \* short of it by less than the smallest plot
   /\ \A u \in I \ S : u.d \in ds => SumOf(S) + Size(u.bl) > t    \* an unused indexed space would not fit
   /\ \A n \in I2 \ I : n \in S /\ n.d \in newdirs         \* new spaces are selected and lie where requested
+  /\ \A n \in I2 \ I, u \in I \ S : u.d \in ds => u.bl # n.bl   \* no new space while an indexed one of that size is unused
 GoodByPath(I, I2, S, ds, ts) ==
   /\ I \subseteq I2 /\ S \subseteq I2
   /\ \A i \in DOMAIN ds : LET Si == {s \in S : s.d = ds[i]} IN
         /\ SumOf(Si) <= ts[i] /\ ts[i] - SumOf(Si) < MinSize
         /\ \A u \in I \ S : u.d = ds[i] => SumOf(Si) + Size(u.bl) > ts[i]
+        /\ \A n \in I2 \ I, u \in I \ S : (u.d = ds[i] /\ n.d = ds[i]) => u.bl # n.bl
   /\ \A s \in S : \E i \in DOMAIN ds : s.d = ds[i]
   /\ \A n \in I2 \ I : n \in S
 GoodByBL(I, I2, S, cnt, newdir) ==
